@@ -844,28 +844,35 @@ def check_name_bounds_static(ctx, mod, consts):
     """Name.encode: the length byte and the pointer are written only under guards that keep them inside the format (dominance + linear normal form)."""
     from sa.astx import call_name, lincmp, walk_local
     from sa.props._lib_g import expand, single_defs
-    f = ctx.func(DNS, "Name.encode")
-    g = ctx.cfg(f)
+    f0 = ctx.func(DNS, "Name.encode")
     q = Q + ".Name.encode"
-    defs = single_defs(f)
-    strio = f.args.args[1].arg if len(f.args.args) > 1 else "strio"
+    # Name.encode and the private helpers (methods, static methods, module functions) it hands the work to: a write and the guard that bounds it are
+    # looked for in whichever of them holds the write
+    ctxs = []
+    for fn in _reachable_private(ctx.cls(DNS, "Name"), f0, mod):
+        if isinstance(fn, ast.FunctionDef):
+            ctxs.append((fn, ctx.cfg(fn), single_defs(fn)))
     len_sites, ptr_sites = [], []
-    for n in g.ids(lambda n: n.ast is not None and n.kind in ("stmt", "test")):
-        for c in walk_local(g.node(n).ast):
-            if isinstance(c, ast.Call) and call_name(c) == f"{strio}.write" and len(c.args) == 1:
-                a = expand(c.args[0], defs)
-                if isinstance(a, ast.Call) and call_name(a) in ("_ord2bytes",) and a.args:
-                    len_sites.append((n, a.args[0]))
-                elif isinstance(a, ast.Call) and call_name(a) in ("struct.pack", "pack") and any(isinstance(x, ast.BinOp) and isinstance(x.op, ast.BitOr) for x in ast.walk(a)):
-                    bo = next(x for x in ast.walk(a) if isinstance(x, ast.BinOp) and isinstance(x.op, ast.BitOr))
-                    operand = bo.right if isinstance(bo.left, ast.Constant) else bo.left
-                    ptr_sites.append((n, operand))
+    for fn, g_, defs_ in ctxs:
+        params = {a.arg for a in fn.args.args}
+        for n in g_.ids(lambda n: n.ast is not None and n.kind in ("stmt", "test")):
+            for c in walk_local(g_.node(n).ast):
+                if isinstance(c, ast.Call) and isinstance(c.func, ast.Attribute) and c.func.attr == "write" and isinstance(c.func.value, ast.Name) and c.func.value.id in params and len(c.args) == 1:
+                    a = expand(c.args[0], defs_)
+                    if isinstance(a, ast.Call) and call_name(a) in ("_ord2bytes",) and a.args:
+                        len_sites.append(((g_, defs_, n), a.args[0]))
+                    elif isinstance(a, ast.Call) and call_name(a) in ("struct.pack", "pack") and any(isinstance(x, ast.BinOp) and isinstance(x.op, ast.BitOr) for x in ast.walk(a)):
+                        bo = next(x for x in ast.walk(a) if isinstance(x, ast.BinOp) and isinstance(x.op, ast.BitOr))
+                        operand = bo.right if isinstance(bo.left, ast.Constant) else bo.left
+                        ptr_sites.append(((g_, defs_, n), operand))
+    f, g, defs = ctxs[0] if ctxs else (f0, ctx.cfg(f0), single_defs(f0))
     if not len_sites:
         ctx.note("name/label-length-limit: the write of the label length byte was not recognised in Name.encode; clause left to name-evaluated/label-length-limit (bounded)")
     if not ptr_sites:
         ctx.note("name/pointer-offset-limit: the write of the compression pointer was not recognised in Name.encode; clause left to name-evaluated/pointer-offset-limit (bounded)")
 
-    def bounded_above(n, operand, limit) -> bool:
+    def bounded_above(site, operand, limit) -> bool:
+        g, defs, n = site
         terms_ok = {src(expand(operand, defs)), src(operand)}
         # the length byte `ind` is len(label) on one branch and the dot position on the other: a guard on len(<label variable>) also counts
         for t, lab in g.edge_guards(n):
@@ -884,8 +891,9 @@ def check_name_bounds_static(ctx, mod, consts):
         ctx.check(all(bounded_above(m, o, 63) for m, o in len_sites), "name/label-length-limit", q + " | <label longer than 63 bytes>",
                   "Name(b'a'*64 + b'.com').encode() writes the length byte 0x40 and a 200-byte label writes 0xc8: the two top bits of that byte mean "
                   "'compression pointer' to every reader, so the name is not refused and does not decode to itself (labels are limited to 63 bytes)")
-    def stores_bounded(operand) -> bool:
+    def stores_bounded(site, operand) -> bool:
         """the pointer operand is D[key] and every offset ever stored into D (by this module) is stored under a guard bounding it by 0x3FFF"""
+        g, defs, _n = site
         op = expand(operand, defs)
         if not (isinstance(op, ast.Subscript) and isinstance(op.value, ast.Name)):
             return False
@@ -894,7 +902,7 @@ def check_name_bounds_static(ctx, mod, consts):
         for qn, fn in mod.functions():
             if not any(isinstance(x, ast.Subscript) and isinstance(x.ctx, ast.Store) and isinstance(x.value, ast.Name) and x.value.id == dname for x in ast.walk(fn)):
                 continue
-            gg = ctx.cfg(fn) if fn is not f else g
+            gg = ctx.cfg(fn)
             fdefs = single_defs(fn)
             for m in gg.ids(lambda n: n.kind == "stmt" and isinstance(n.ast, ast.Assign) and any(isinstance(t, ast.Subscript) and isinstance(t.value, ast.Name) and t.value.id == dname
                                                                                                 for t in n.ast.targets)):
@@ -918,7 +926,7 @@ def check_name_bounds_static(ctx, mod, consts):
         return found
 
     for n, operand in ptr_sites[:1]:
-        ctx.check(all(bounded_above(m, o, 0x3FFF) or stores_bounded(o) for m, o in ptr_sites), "name/pointer-offset-limit", q + " | <compression pointer to an offset >= 0x4000>",
+        ctx.check(all(bounded_above(m, o, 0x3FFF) or stores_bounded(m, o) for m, o in ptr_sites), "name/pointer-offset-limit", q + " | <compression pointer to an offset >= 0x4000>",
                   "a name that was first written at offset >= 0x4000 is referenced with 0xC000 | offset, which a reader decodes as offset & 0x3FFF: "
                   "in a 26 KiB message the last owner name decodes to bytes from the middle of another record")
 
@@ -1000,6 +1008,8 @@ _OFFSET_GUARD = ("                    offset = strio.tell() + Message.headerSize
                  "                    # written further into the message cannot be referred to.\n                    if offset < 0x4000:\n                        compDict[name] = offset\n")
 
 MUTANTS = [
+    Mutant("label-written-by-a-static-helper-without-the-guard", DNS, "            if ind > 63:\n                # The two high bits of the length byte are reserved (they mark\n                # a compression pointer).\n                raise ValueError(f\"DNS label longer than 63 bytes: {label!r}\")\n            strio.write(_ord2bytes(ind))\n            strio.write(label)\n", "            self._emitLabel(strio, label)\n", more=[(DNS, "    def decode(self, strio, length=None):\n        \"\"\"\n        Decode a byte string into this Name.\n", "    @staticmethod\n    def _emitLabel(out, piece):\n        size = len(piece)\n        out.write(_ord2bytes(size))\n        out.write(piece)\n\n    def decode(self, strio, length=None):\n        \"\"\"\n        Decode a byte string into this Name.\n")], expect_rule="name/label-length-limit"),
+    Mutant("name-decode-sentinel-iterator-stops-at-one-byte-labels", DNS, "        visited = set()\n        self.name = b\"\"\n        off = 0\n        while 1:\n            l = ord(readPrecisely(strio, 1))\n            if l == 0:\n                if off > 0:\n                    strio.seek(off)\n                return\n            if (l >> 6) == 3:\n                new_off = (l & 63) << 8 | ord(readPrecisely(strio, 1))\n                if new_off in visited:\n                    raise ValueError(\"Compression loop in encoded name\")\n                visited.add(new_off)\n                if off == 0:\n                    off = strio.tell()\n                strio.seek(new_off)\n                continue\n            label = readPrecisely(strio, l)\n            if self.name == b\"\":\n                self.name = label\n            else:\n                self.name = self.name + b\".\" + label\n", "        visited = set()\n        self.name = b\"\"\n        off = 0\n\n        def nextByte():\n            return ord(readPrecisely(strio, 1))\n\n        for l in iter(nextByte, 1):\n            if (l >> 6) != 3:\n                label = readPrecisely(strio, l)\n                self.name = label if self.name == b\"\" else self.name + b\".\" + label\n                continue\n            new_off = (l & 63) << 8 | nextByte()\n            if new_off in visited:\n                raise ValueError(\"Compression loop in encoded name\")\n            visited.add(new_off)\n            if off == 0:\n                off = strio.tell()\n            strio.seek(new_off)\n        if off > 0:\n            strio.seek(off)\n", expect_rule=None),
     Mutant("sections-chained-in-the-wrong-order", DNS, "        for q in self.queries:\n            q.encode(body_tmp, compDict)\n        for q in self.answers:\n            q.encode(body_tmp, compDict)\n        for q in self.authority:\n            q.encode(body_tmp, compDict)\n        for q in self.additional:\n            q.encode(body_tmp, compDict)\n",
            "        for entry in chain(self.queries, self.answers, self.additional, self.authority):\n            entry.encode(body_tmp, compDict)\n", expect_rule="roundtrip/sections"),
     # conditional / computed-length fields: writer and reader must agree for every value of the field that determines them
@@ -1069,6 +1079,9 @@ MUTANTS = [
 ]
 
 SILENT = [
+    # the label write (with its guard) in a private static helper; the decode loop driven by iter(callable, sentinel) with a local closure
+    Silent("label-written-by-a-static-helper-holding-the-guard", DNS, "            if ind > 63:\n                # The two high bits of the length byte are reserved (they mark\n                # a compression pointer).\n                raise ValueError(f\"DNS label longer than 63 bytes: {label!r}\")\n            strio.write(_ord2bytes(ind))\n            strio.write(label)\n", "            self._emitLabel(strio, label)\n", more=[(DNS, "    def decode(self, strio, length=None):\n        \"\"\"\n        Decode a byte string into this Name.\n", "    @staticmethod\n    def _emitLabel(out, piece):\n        size = len(piece)\n        if size > 63:\n            raise ValueError(f\"DNS label longer than 63 bytes: {piece!r}\")\n        out.write(_ord2bytes(size))\n        out.write(piece)\n\n    def decode(self, strio, length=None):\n        \"\"\"\n        Decode a byte string into this Name.\n")]),
+    Silent("name-decode-loop-over-a-sentinel-iterator", DNS, "        visited = set()\n        self.name = b\"\"\n        off = 0\n        while 1:\n            l = ord(readPrecisely(strio, 1))\n            if l == 0:\n                if off > 0:\n                    strio.seek(off)\n                return\n            if (l >> 6) == 3:\n                new_off = (l & 63) << 8 | ord(readPrecisely(strio, 1))\n                if new_off in visited:\n                    raise ValueError(\"Compression loop in encoded name\")\n                visited.add(new_off)\n                if off == 0:\n                    off = strio.tell()\n                strio.seek(new_off)\n                continue\n            label = readPrecisely(strio, l)\n            if self.name == b\"\":\n                self.name = label\n            else:\n                self.name = self.name + b\".\" + label\n", "        visited = set()\n        self.name = b\"\"\n        off = 0\n\n        def nextByte():\n            return ord(readPrecisely(strio, 1))\n\n        for l in iter(nextByte, 0):\n            if (l >> 6) != 3:\n                label = readPrecisely(strio, l)\n                self.name = label if self.name == b\"\" else self.name + b\".\" + label\n                continue\n            new_off = (l & 63) << 8 | nextByte()\n            if new_off in visited:\n                raise ValueError(\"Compression loop in encoded name\")\n            visited.add(new_off)\n            if off == 0:\n                off = strio.tell()\n            strio.seek(new_off)\n        if off > 0:\n            strio.seek(off)\n"),
     Silent("sections-encoded-through-one-lazy-chain", DNS, "        for q in self.queries:\n            q.encode(body_tmp, compDict)\n        for q in self.answers:\n            q.encode(body_tmp, compDict)\n        for q in self.authority:\n            q.encode(body_tmp, compDict)\n        for q in self.additional:\n            q.encode(body_tmp, compDict)\n",
            "        for entry in chain.from_iterable(getattr(self, section) for section in (\"queries\", \"answers\", \"authority\", \"additional\")):\n            entry.encode(body_tmp, compDict)\n"),
     Silent("section-counts-unpacked-into-the-header", DNS, "                len(self.queries),\n                len(self.answers),\n                len(self.authority),\n                len(self.additional),\n",
